@@ -232,7 +232,9 @@ func runCheck(cfg *propertyConfig, tier, repo string, seed int) int {
 	known := loadKnown()
 	isKnown := func(name string) *KnownFinding {
 		for i := range known.Findings {
-			if known.Findings[i].Property == cfg.ID && known.Findings[i].Obligation == name {
+			ob := known.Findings[i].Obligation
+			// a finding names an obligation; the per-path copies of it (name#n) and its conjuncts (name.k) are the same finding
+			if known.Findings[i].Property == cfg.ID && (ob == name || strings.HasPrefix(name, ob+"#") || strings.HasPrefix(name, ob+".")) {
 				return &known.Findings[i]
 			}
 		}
@@ -242,6 +244,7 @@ func runCheck(cfg *propertyConfig, tier, repo string, seed int) int {
 	nObl, nDis := 0, 0
 	var violations []string
 	var knownHit []string
+	knownObls := 0
 	var fev []funcEvidence
 	var samples []map[string]interface{}
 	totalSolver := 0.0
@@ -250,7 +253,14 @@ func runCheck(cfg *propertyConfig, tier, repo string, seed int) int {
 	var outOfSubset []string
 	fail := func(name, why, detail string, o *Obligation) {
 		if k := isKnown(name); k != nil {
-			knownHit = append(knownHit, fmt.Sprintf("KNOWN-FINDING: property=%s %s: %s", cfg.ID, name, k.What))
+			knownObls++
+			line := fmt.Sprintf("KNOWN-FINDING: property=%s %s: %s", cfg.ID, k.Obligation, k.What)
+			for _, l := range knownHit {
+				if l == line {
+					return
+				}
+			}
+			knownHit = append(knownHit, line)
 			return
 		}
 		path := writeReplay(replayDir, cfg.ID, name, why, detail, o)
@@ -406,7 +416,7 @@ func runCheck(cfg *propertyConfig, tier, repo string, seed int) int {
 	}
 	// an obligation listed as a known finding is reported (KNOWN-FINDING line, evidence key
 	// known_findings_hit) and is not part of what this run claims as proved
-	nObl -= len(knownHit)
+	nObl -= knownObls
 	if nObl == 0 {
 		fail("no-obligations", "the check generated no obligation at all (vacuous run)", "", nil)
 	}
